@@ -37,6 +37,24 @@ func c08RequestCancellable(c *Ctx) {
 				continue
 			}
 			for _, u := range *ex.Referrers() {
+				// handed to a library setter that keeps it in a member
+				if cl, ok := u.(ssa.CallInstruction); ok {
+					if sc := ir.StaticCallee(cl); sc != nil && c.P.IsLib(sc) {
+						for i, a := range cl.Common().Args {
+							if a != ssa.Value(ex) || i >= len(sc.Params) {
+								continue
+							}
+							p := sc.Params[i]
+							for _, pr := range *p.Referrers() {
+								if st, ok := pr.(*ssa.Store); ok && st.Val == ssa.Value(p) {
+									if _, isField := st.Addr.(*ssa.FieldAddr); isField {
+										owned = true
+									}
+								}
+							}
+						}
+					}
+				}
 				if st, ok := u.(*ssa.Store); ok && st.Val == ssa.Value(ex) {
 					if _, isField := st.Addr.(*ssa.FieldAddr); isField {
 						owned = true
@@ -740,6 +758,20 @@ func c09PublishAfterHeader(c *Ctx, rule string) {
 				if ir.CallName(x) == "(*sync.Map).Store" && len(x.Call.Args) == 3 {
 					val = x.Call.Args[2]
 				}
+				// a method of a table type that stores its parameter into the table's map
+				if sc := ir.StaticCallee(x); val == nil && sc != nil && c.P.IsLib(sc) {
+					for i, a := range x.Call.Args {
+						if _, isRec := records[a]; !isRec || i >= len(sc.Params) {
+							continue
+						}
+						p := sc.Params[i]
+						ir.EachInstr(sc, func(_ *ssa.BasicBlock, _ int, in2 ssa.Instruction) {
+							if mu, ok := in2.(*ssa.MapUpdate); ok && mu.Value == ssa.Value(p) {
+								val = a
+							}
+						})
+					}
+				}
 			}
 			if val == nil {
 				return
@@ -1091,6 +1123,36 @@ func c03ResponseNeedsID(c *Ctx) {
 			return found
 		}
 		switch x := cond.(type) {
+		case *ssa.Phi:
+			// `a && b` evaluated as a value (a case expression): true only when it came in over the edge carrying b,
+			// and that edge's block is reached only when a held
+			if !branch || d > 3 {
+				return false
+			}
+			// every edge over which the value can be true has the id tested: by its own operand, or by a decision
+			// every path to the edge's block goes through
+			any := false
+			for i, e := range x.Edges {
+				if cst, ok := e.(*ssa.Const); ok && cst.Value != nil && cst.Value.String() == "false" {
+					continue
+				}
+				any = true
+				if idTested(fn, e, true, d+1) {
+					continue
+				}
+				okEdge := false
+				if i < len(x.Block().Preds) {
+					for _, g2 := range flow.Guards(fn, x.Block().Preds[i]) {
+						if idTested(fn, g2.If.Cond, g2.Branch, d+1) {
+							okEdge = true
+						}
+					}
+				}
+				if !okEdge {
+					return false
+				}
+			}
+			return any
 		case *ssa.BinOp:
 			if x.Op == token.EQL || x.Op == token.NEQ {
 				for _, o := range []ssa.Value{x.X, x.Y} {
@@ -1140,12 +1202,11 @@ func c03ResponseNeedsID(c *Ctx) {
 		if !dispatches || len(answerCalls) == 0 {
 			continue
 		}
-		pd := flow.NewPostDom(fn)
 		for i, call := range answerCalls {
 			n++
 			ok := false
-			guards := append(pd.ControlDepsTransitive(call.Block()), flow.Guards(fn, call.Block())...)
-			for _, g := range guards {
+			// decisions every path to the call goes through (not merely decisions that influence whether it is reached)
+			for _, g := range flow.Guards(fn, call.Block()) {
 				if idTested(fn, g.If.Cond, g.Branch, 0) {
 					ok = true
 				}
@@ -1347,8 +1408,9 @@ func listingSessionFree(c *Ctx, rule string) {
 // ---------------------------------------------------------------- R-register-replaces (C12)
 // "A registration made under a name that is taken replaces the entry": a registering function (one that updates a
 // registry map in place) stores the new entry on every path its input validation lets through. A return that skips the
-// update and is decided by looking at the EXISTING entry of the map ("the same descriptor is registered already")
-// keeps the old entry — and with it the old handler — although the caller registered a new one.
+// update, reports success (no non-nil error) and is decided by looking at the EXISTING entry of the map ("the same
+// descriptor is registered already") keeps the old entry — and with it the old handler — although the caller registered
+// a new one. (A registry that refuses duplicates says so with an error; that is not judged here.)
 func c12RegisterReplaces(c *Ctx, ri *registryInfo, accs []Access) {
 	type site struct {
 		fn   *ssa.Function
@@ -1380,9 +1442,6 @@ func c12RegisterReplaces(c *Ctx, ri *registryInfo, accs []Access) {
 			}
 			return false
 		case *ssa.Extract:
-			if x.Index == 1 {
-				return false // the found-flag: deciding bookkeeping (the order slice) by it is the normal form
-			}
 			return derivesFromLookup(x.Tuple, d+1)
 		case *ssa.UnOp:
 			return derivesFromLookup(x.X, d+1)
@@ -1427,6 +1486,16 @@ func c12RegisterReplaces(c *Ctx, ri *registryInfo, accs []Access) {
 			}
 			ret, ok := b.Instrs[len(b.Instrs)-1].(*ssa.Return)
 			if !ok {
+				continue
+			}
+			// a refusal that is reported to the caller (a non-nil error) is not a silent skip
+			refused := false
+			for _, res := range ir.Results(ret) {
+				if ir.TypeStr(res.Type()) == "error" && !ir.IsNilConst(res) {
+					refused = true
+				}
+			}
+			if refused {
 				continue
 			}
 			for _, g := range pd.ControlDepsTransitive(b) {
